@@ -109,3 +109,18 @@ where
     }
     n
 }
+
+/// control E5: one call site drops the common prefix from the position it builds from the cursor
+pub fn e5_bad_cursor_base<D: DiffHook>(d: &mut D, old_range: Range<usize>, new_range: Range<usize>, prefix: usize, n: usize) -> Result<(), D::Error> {
+    let mut old_idx = 0;
+    let mut new_idx = 0;
+    while old_idx < n {
+        d.equal(old_range.start + prefix + old_idx, new_range.start + prefix + new_idx, 1)?;
+        old_idx += 1;
+        new_idx += 1;
+    }
+    if old_idx < old_range.len() {
+        d.delete(old_range.start + prefix + old_idx, old_range.len() - old_idx, new_range.start + new_idx)?;
+    }
+    d.finish()
+}
